@@ -117,7 +117,9 @@ func c05Exec(cs progCase, classify func(r *prog.Runner) func(op prog.Op, d *disc
 		}
 		if !done {
 			o := op
-			o.Via = ""
+			if o.Via == "api" {
+				o.Via = ""
+			}
 			sd = r.Step(o)
 		}
 		if len(sd) == 0 {
@@ -292,7 +294,7 @@ func c05Run(t *testing.T, c *evid.Collector) {
 			return prog.Op{K: "copy", B: "bk0", Key: dst, SB: "bk0", SKey: src, Via: via, Meta: meta}
 		}
 		for _, h := range [][]prog.Op{
-			{en, put("k0", "one", "1"), put("k1", "other", "o"), cp("k1", "k0", "", sent), cp("k1", "k0", "api", nil), {K: "getver", B: "bk0", Key: "k0", Ref: 0}, put("k0", "two", "2"), cp("k1", "k0", "api", nil), {K: "getver", B: "bk0", Key: "k0", Ref: 0}, {K: "getver", B: "bk0", Key: "k0", Ref: 1}},
+			{en, put("k0", "one", "1"), put("k1", "other", "o"), cp("k1", "k0", "", sent), cp("k1", "k0", "directive-copy", nil), {K: "getver", B: "bk0", Key: "k0", Ref: 0}, cp("k1", "k0", "api", nil), {K: "getver", B: "bk0", Key: "k0", Ref: 0}, put("k0", "two", "2"), cp("k1", "k0", "api", nil), {K: "getver", B: "bk0", Key: "k0", Ref: 0}, {K: "getver", B: "bk0", Key: "k0", Ref: 1}},
 			{put("k0", "zero", "0"), en, put("k0", "one", "1"), cp("k0", "k0", "", sent), cp("k1", "k0", "api", nil), su, cp("k1", "k1", "api", nil), cp("k0", "k1", "api", nil), {K: "delver", B: "bk0", Key: "k0", Ref: -1}, {K: "getver", B: "bk0", Key: "k0", Ref: 0}},
 		} {
 			cs := progCase{Backend: backends.Mem, Driver: "mixed", Ops: h}
